@@ -99,6 +99,35 @@ pub enum Op {
     // ---- any Clone-able subject
     /// replace the cache by its clone and continue on the clone
     CloneReplace,
+    /// `other.clone_from(&cache)` onto another, fuller cache of a different capacity; continue on `other`
+    CloneFromReplace,
+    /// replace the cache by one built with a conversion (`collect()`, `From<Vec>`, `From<[_; N]>`, iterators with
+    /// inexact size hints) from the item sequence the code stands for (`from_items_decode`)
+    FromItems(u16),
+}
+
+/// `FromItems(code)`: conversion kind = code / 1024; the items are the base-4 digits of code % 1024, least
+/// significant first, 0 = end, d = key d-1; the value version alternates with the position when code / 1024 >= 8 (configurations with two versions).
+/// kinds: 0 `collect()` of a Vec; 1 `From<Vec>`; 2 `From<[_; N]>`; 3 `collect()` through `filter` (size hint (0, n));
+/// 4 `collect()` of a `chain` of two halves; 5 `collect()` through `take_while` over an unbounded source (size hint (0, huge))
+pub fn from_items_decode(code: u16) -> (u8, Vec<(u8, u8)>) {
+    let kind = ((code / 1024) % 8) as u8;
+    let alternate = code / 1024 >= 8;
+    let mut d = code % 1024;
+    let mut items = vec![];
+    while d % 4 != 0 && items.len() < 5 {
+        items.push(((d % 4 - 1) as u8, if alternate { (items.len() as u8) % 2 } else { 0 }));
+        d /= 4;
+    }
+    (kind, items)
+}
+
+pub fn from_items_encode(kind: u8, keys: &[u8]) -> u16 {
+    let mut d = 0u16;
+    for k in keys.iter().rev() {
+        d = d * 4 + (*k as u16 + 1);
+    }
+    kind as u16 * 1024 + d
 }
 
 impl Op {
@@ -324,6 +353,14 @@ pub struct Cfg {
     /// than in the undisturbed run (C17: "where entries happen to be allocated")
     #[serde(default)]
     pub addr_noise: u8,
+    /// W-TinyLFU only: leave get/get_mut out of the alphabet, so that the estimator never records anything
+    /// and every key's estimate is 0 under every KeyHasher ("the same estimator verdicts", C17)
+    #[serde(default)]
+    pub no_estimator_ops: bool,
+    /// RawLRU without callback: conversions (`FromItems`) are operations of the alphabet, so that the states they
+    /// build - duplicates in the source included - are states of the closure like any other
+    #[serde(default)]
+    pub conversions: bool,
 }
 
 impl Cfg {
@@ -348,6 +385,8 @@ impl Cfg {
             relative: false,
             builder_path: 0,
             addr_noise: 0,
+            no_estimator_ops: false,
+            conversions: false,
         }
     }
     pub fn label(&self) -> String {
@@ -383,6 +422,12 @@ impl Cfg {
         if self.addr_noise != 0 {
             s += &format!("/addr_noise={}", self.addr_noise);
         }
+        if self.no_estimator_ops {
+            s += "/no-get";
+        }
+        if self.conversions {
+            s += "/conversions";
+        }
         s
     }
 }
@@ -397,12 +442,16 @@ pub fn mutators(cfg: &Cfg) -> Vec<Op> {
         }
     }
     for k in 0..cfg.keys {
-        v.push(Op::Get(k));
-        if !cfg.lean_ops {
-            v.push(Op::GetMut(k));
+        if !cfg.no_estimator_ops {
+            v.push(Op::Get(k));
+            if !cfg.lean_ops {
+                v.push(Op::GetMut(k));
+            }
         }
         if two {
-            v.push(Op::GetMutW(k));
+            if !cfg.no_estimator_ops {
+                v.push(Op::GetMutW(k));
+            }
             v.push(Op::PeekMutW(k));
         }
         v.push(Op::Remove(k));
@@ -472,6 +521,40 @@ pub fn mutators(cfg: &Cfg) -> Vec<Op> {
     }
     if cfg.with_clone && matches!(cfg.kind, Kind::Raw | Kind::Slru | Kind::Wtlfu) {
         v.push(Op::CloneReplace);
+        if cfg.kind == Kind::Raw && cfg.callback == 0 {
+            v.push(Op::CloneFromReplace);
+        }
+    }
+    if cfg.conversions && cfg.kind == Kind::Raw && cfg.callback == 0 {
+        // every item sequence of length <= 3 over two keys, a few longer ones with repeats, each through one of
+        // the conversion kinds (rotating), plus the unbounded-source kind for three lengths
+        let mut seqs: Vec<Vec<u8>> = vec![vec![]];
+        for a in 0..2u8 {
+            seqs.push(vec![a]);
+            for b in 0..2u8 {
+                seqs.push(vec![a, b]);
+                for c in 0..2u8 {
+                    seqs.push(vec![a, b, c]);
+                }
+            }
+        }
+        seqs.extend([vec![0, 1, 2, 0], vec![2, 2, 2, 2], vec![1, 0, 1, 2, 1], vec![0, 1, 2], vec![0, 1, 2, 1, 0]]);
+        let alt: u8 = if cfg.versions >= 2 { 8 } else { 0 };
+        for (i, s) in seqs.iter().enumerate() {
+            v.push(Op::FromItems(from_items_encode((i % 5) as u8 + alt, s)));
+            if s.len() >= 2 && s.iter().collect::<std::collections::BTreeSet<_>>().len() < s.len() {
+                // sources that repeat a key go through every kind
+                for kind in 0..5u8 {
+                    if kind as usize != i % 5 {
+                        v.push(Op::FromItems(from_items_encode(kind + alt, s)));
+                    }
+                }
+            }
+        }
+        for n in [0u8, 1, 3] {
+            let s: Vec<u8> = (0..n).collect();
+            v.push(Op::FromItems(from_items_encode(5, &s)));
+        }
     }
     v
 }
